@@ -21,7 +21,8 @@ SIGNED = {"i8", "i16", "i32", "i64", "int"}
 COQK = {"i8": "NI8", "i16": "NI16", "i32": "NI32", "i64": "NI64", "int": "NInt", "u8": "NU8", "u16": "NU16",
         "u32": "NU32", "u64": "NU64", "uint": "NUint", "f32": "NF32", "f64": "NF64"}
 JS = ["json:bool", "json:stru", "json:map", "json:slice", "json:mapany", "json:unexp", "json:nan", "json:myint",
-      "json:nested", "json:chan"]
+      "json:nested", "json:chan", "json:time", "json:ptr", "json:structs", "json:mystr", "json:mybytes", "json:arr"]
+BIG = [4095, 4096, 4097, 65536, 1 << 20]
 OTHER_SRC = ["nil", "int", "float", "bool", "time", "ibytes"]
 MALFORMED_JSON = [b"", b"{", b"nul", b"[1,2", b'{"A":"x","B":"kept"}', b"\xff", b"123", b'"s"', b"{}", b"null", b"[]", b"true",
                   b'{"A":1}{', b" ", b'{"a":1e999}', b"[\"x\"]", b'{"X":"NaN"}',
@@ -72,6 +73,17 @@ def byte_values(r, full):
     return vs
 
 
+def big_values(r, ty, full):
+    """plaintexts around and far beyond 4096 bytes (a silent truncation / chunking limit would show here);
+    quick: the megabyte only as a string"""
+    sizes = [n for n in BIG if full or n < (1 << 20) or ty == "str"]
+    out = []
+    for n in sizes:
+        off = r.randrange(256)
+        out.append((bytes((i * 31 + n + off) & 255 for i in range(n)), "%s of %d bytes, byte i = (31*i + %d) mod 256" % (ty, n, n + off)))
+    return out
+
+
 def hx(b):
     return "h" + bytes(b).hex()
 
@@ -119,6 +131,17 @@ def gen_phase1(c, cat):
             for k in keys:
                 cases.append(Case("V %s=%s 1 %s" % (ty, v, hx(k)), "V", "C18:codec:" + ty, ty=ty, val=v, key=k, base=True))
         cases.append(Case("V %s=%s 0 %s" % (ty, vals[0], hx(good[0])), "V", "C18:value:invalid", ty=ty, val=vals[0], key=good[0]))
+        if ty in ("str", "bytes"):
+            for v, recipe in big_values(r, ty, full):
+                k = nextkey()
+                cases.append(Case("V %s=%s 1 %s" % (ty, v.hex(), hx(k)), "V", "C18:codec:" + ty, ty=ty, val=v.hex(), key=k, base=True, big=True,
+                                  recipe="Value() then Scan() of a %s under a %d-byte key" % (recipe, len(k))))
+    # []byte(nil) with Valid = true is a value, not NULL: it encrypts to the empty plaintext (28 stored bytes)
+    for k in good[:3]:
+        cases.append(Case("V bytes=nil 1 %s" % hx(k), "V", "C18:codec:bytes", ty="bytes", val="nil", key=k, base=True, force=True))
+        cases.append(Case("V bytes= 1 %s" % hx(k), "V", "C18:codec:bytes", ty="bytes", val="", key=k, base=True, force=True))
+        cases.append(Case("V str= 1 %s" % hx(k), "V", "C18:codec:str", ty="str", val="", key=k, base=True, force=True))
+    cases.append(Case("V bytes=nil 0 %s" % hx(good[0]), "V", "C18:value:invalid", ty="bytes", val="nil", key=good[0]))
     for ty in JS:
         for idx in sorted(i for (t, i) in cat if t == ty):
             for k in (good[:3] if full else [nextkey()]):
@@ -189,7 +212,8 @@ def gen_phase2(c, cat, cases1, impl1):
         if cs.kind == "V" and cs.meta.get("base") and o.startswith("ok stored="):
             m = re.match(r"ok stored=([0-9a-f]*) pt=h([0-9a-f]*) ", o)
             if m:
-                bases.append((cs.meta["ty"], cs.meta["val"], cs.meta["key"], bytes.fromhex(m.group(1)), bytes.fromhex(m.group(2))))
+                bases.append((cs.meta["ty"], cs.meta["val"], cs.meta["key"], bytes.fromhex(m.group(1)), bytes.fromhex(m.group(2)),
+                              bool(cs.meta.get("big")), bool(cs.meta.get("force"))))
         if cs.kind == "JV" and cs.meta["valid"] == "1":
             m = re.match(r"ok h([0-9a-f]*) ", o)
             if m:
@@ -197,8 +221,9 @@ def gen_phase2(c, cat, cases1, impl1):
     # choose the base ciphertexts of the corruption stream
     per_ty = {}
     for b in bases:
-        per_ty.setdefault(b[0], []).append(b)
-    chosen = []
+        if not b[5] and not b[6]:
+            per_ty.setdefault(b[0], []).append(b)
+    chosen = [b for b in bases if b[5] or b[6]]
     for ty, bs in sorted(per_ty.items()):
         if full:
             chosen += r.sample(bs, min(len(bs), 24 if ty in NUM else 8))
@@ -206,7 +231,7 @@ def gen_phase2(c, cat, cases1, impl1):
             chosen += r.sample(bs, min(len(bs), 3 if ty in NUM else 2))
     small_done = False
     n_flip = n_trunc = 0
-    for bi, (ty, val, key, stored, pt) in enumerate(chosen):
+    for bi, (ty, val, key, stored, pt, big, _forced) in enumerate(chosen):
         n = len(stored)
         log = "%s,%s,%s,%s" % (hx(key), hx(stored[:12]), hx(stored[12:]), hx(pt))
         pr = prior_of(ty)
@@ -214,8 +239,24 @@ def gen_phase2(c, cat, cases1, impl1):
         def add(kind, src, k=key, sig=None, pv=None):
             pvv = (len(out) % 2) if pv is None else pv
             out.append(Case("X %s=%s %d %s %s" % (ty, pr, pvv, hx(k), src), "X", sig or ("C18:scan:corrupt:" + kind),
-                            ty=ty, val=val, log=log, corrupt=kind, key=k))
+                            ty=ty, val=val, log=log, corrupt=kind, key=k,
+                            recipe=("Scan of the Value() output (corruption: %s) of a %d-byte %s" % (kind, len(pt), ty)) if big else None))
         add("none", "bytes:" + stored.hex(), sig="C18:scan:roundtrip")
+        if big:
+            # a handful of corruptions of a large ciphertext: cuts around the 4096-byte mark and the end, flips at both ends
+            huge = n > (1 << 19)
+            for l in ([12 + 4096, n - 1] if huge else [0, 11, 12, 27, 12 + 4095, 12 + 4096, n - 17, n - 1]):
+                if 0 <= l < n:
+                    add("trunc", "bytes:" + stored[:l].hex())
+                    n_trunc += 1
+            for i in ([8 * n - 1] if huge else [0, 8 * 12, 8 * (12 + 4096) + 1, 8 * (n - 16), 8 * n - 1]):
+                if 0 <= i < 8 * n:
+                    add("flip", "string:" + flip(stored, i).hex())
+                    n_flip += 1
+            if not huge:
+                add("append", "bytes:" + (stored + b"\x00").hex())
+                add("wrongkey", "bytes:" + stored.hex(), k=[k for k in good if k != key][0])
+            continue
         add("none", "string:" + stored.hex(), sig="C18:scan:roundtrip")
         lens = range(n) if (n <= 80 or full and n <= 300) else sorted(set(list(range(0, 30)) + [n - 1, n - 2, n - 16, n - 17] + [r.randrange(n) for _ in range(20)]))
         for l in lens:
@@ -241,12 +282,13 @@ def gen_phase2(c, cat, cases1, impl1):
     # a legitimate ciphertext scanned into a column of another type (decode of a longer / shorter plaintext)
     byty = {}
     for b in chosen:
-        byty.setdefault(b[0], b)
+        if not b[5] and not b[6]:
+            byty.setdefault(b[0], b)
     for (src_ty, dst_ty) in [("i64", "i32"), ("i64", "i8"), ("u32", "u16"), ("i8", "i64"), ("u16", "u32"), ("f64", "f32"), ("f32", "f64"),
                              ("int", "uint"), ("str", "int"), ("bytes", "u8"), ("i32", "str"), ("i16", "bytes"), ("json:bool", "str"),
                              ("str", "json:stru"), ("i8", "json:bool")]:
         if src_ty in byty:
-            ty0, val, key, stored, pt = byty[src_ty]
+            ty0, val, key, stored, pt = byty[src_ty][:5]
             log = "%s,%s,%s,%s" % (hx(key), hx(stored[:12]), hx(stored[12:]), hx(pt))
             out.append(Case("X %s=%s 1 %s bytes:%s" % (dst_ty, prior_of(dst_ty), hx(key), stored.hex()), "X", "C18:scan:crosstype",
                             ty=dst_ty, val=None, log=log, corrupt="crosstype", key=key))
@@ -338,7 +380,10 @@ def normalise(cs, o):
         if m:
             st = m.group(1)
             return "ok nonce=%s pt=%s len=%d" % (st[:24], m.group(2), len(st) // 2)
-    return re.sub(r" (j(enc|dec)=|RESCAN|SRCMUT|ALIAS)\S*", "", o)
+    return re.sub(r" (j(enc|dec)=|RESCAN|SRCMUT|ALIAS)\S*", "", o).replace("val=bytes=nil ", "val=bytes= ")
+
+
+JREP = {}
 
 
 def oracle(cs, o, cat):
@@ -358,7 +403,7 @@ def oracle(cs, o, cat):
             return "Scan modified the []byte source it was given (driver-owned memory); result %r" % first
         return "the restored value %r changes when the source buffer is overwritten after Scan returned (Val aliases the source)" % first
     if cs.kind == "V" and cs.meta.get("base") and ty in NUM + ["str", "bytes"]:
-        want = enc_py(ty, int(cs.meta["val"])) if ty in NUM else bytes.fromhex(cs.meta["val"])
+        want = enc_py(ty, int(cs.meta["val"])) if ty in NUM else bytes.fromhex(cs.meta["val"].replace("nil", ""))
         m = re.match(r"ok stored=([0-9a-f]*) pt=(\S+) ", o)
         if not m:
             return "Value() of a valid column with a valid key failed: %s" % o.split(" jenc")[0]
@@ -366,6 +411,12 @@ def oracle(cs, o, cat):
             return "plaintext serialisation is %s, expected big-endian %s" % (m.group(2), want.hex())
         if len(m.group(1)) // 2 != 12 + len(want) + 16:
             return "stored length %d, expected 12+%d+16" % (len(m.group(1)) // 2, len(want))
+    if cs.kind == "V" and cs.meta.get("base") and ty.startswith("json:") and JREP.get((ty, cs.meta["val"])) == "1":
+        m = re.match(r"ok stored=([0-9a-f]*) pt=(\S+) jenc=(\S+)", o)
+        if not m:
+            return "Value() of a JSON-representable value failed: %s" % o.split(" jenc")[0]
+        if m.group(2) != m.group(3):
+            return "plaintext of a JSON-typed value is %s, json.Marshal gives %s" % (m.group(2)[:80], m.group(3)[:80])
     if cs.kind == "S" and ty in NUM and cs.meta["key"] == cs.meta["sealkey"] and len(cs.meta["key"]) in (16, 24, 32):
         z = dec_py(ty, cs.meta["pt"])
         if z is None and o.startswith("ok"):
@@ -376,16 +427,16 @@ def oracle(cs, o, cat):
         k = cs.meta["corrupt"]
         if k == "none":
             v = cs.meta["val"]
-            want = cat[(ty, v)] if v.startswith("#") else v
-            if ty.startswith("json:") and field(o, "jdec") != want + ":1":
-                return None          # not JSON-representable: the hypothesis does not apply
-            if not o.startswith("ok val=%s=%s valid=1" % (ty, want)):
+            want = cat[(ty, v)] if v.startswith("#") else v.replace("nil", "")
+            if ty.startswith("json:") and JREP.get((ty, v)) != "1":
+                return None          # not JSON-representable (decided by encoding/json alone): the hypothesis does not apply
+            if not normalise(cs, o).startswith("ok val=%s=%s valid=1" % (ty, want)):
                 return "Scan(Value(x)) gave %r, expected x=%s Valid=true" % (o.split(" jdec")[0], want)
         elif k != "crosstype" and not o.startswith("err"):
             return "corrupted input (%s) was accepted: %r" % (k, o.split(" jdec")[0])
     if cs.kind in ("JX", "S") and cs.meta.get("rt") is not None and ty.startswith("json:"):
         want = cat[(ty, cs.meta["rt"])]
-        if field(o, "jdec") == want + ":1" and not o.startswith("ok val=%s=%s valid=1" % (ty, want)):
+        if JREP.get((ty, cs.meta["rt"])) == "1" and not o.startswith("ok val=%s=%s valid=1" % (ty, want)):
             return "Scan(Value(x)) of a JSON-representable x gave %r" % o.split(" jdec")[0]
     if cs.kind == "JX" and cs.sig in ("C18:json:srctype",):
         s = cs.impl.split()[3]
@@ -472,6 +523,18 @@ def cross_item(mline, mout):
     return None
 
 
+def run_model_bigstack(text):
+    """Check.run_model with `ulimit -s unlimited`: the extracted list functions are not tail recursive and the
+    megabyte plaintexts need a deep stack."""
+    import subprocess
+    from common import MODELRUN
+    p = subprocess.run(["bash", "-c", 'ulimit -s unlimited 2>/dev/null || ulimit -s 1000000; exec "$0" column', MODELRUN], input=text, text=True,
+                       timeout=3600, stdout=subprocess.PIPE, stderr=subprocess.PIPE)
+    if p.returncode != 0:
+        raise RuntimeError("modelrun column failed: %s" % p.stderr[-2000:])
+    return p.stdout.splitlines()
+
+
 def main(tier):
     c = Check("C18", tier)
     c.proof_layer()
@@ -481,13 +544,15 @@ def main(tier):
         c.report("build", "harness does not build against the repository", {"kind": "build", "log": log[-3000:]}, found_input=False)
         finish(c)
     rc, catl, err = c.run_impl(binary, ["c18", "cat"], "")
-    cat = {}
+    cat, jrep = {}, {}
     for l in catl:
-        ty, idx, rep = l.split()
+        ty, idx, rep, flag = l.split()
         cat[(ty, idx)] = rep
+        jrep[(ty, idx)] = flag      # 1 = round-trips through encoding/json alone, 0 = does not, e = Marshal fails
     if not cat:
         c.report("build", "harness printed no catalogue", {"kind": "build", "log": err[-2000:]}, found_input=False)
         finish(c)
+    JREP.update(jrep)
     cases1 = gen_phase1(c, cat)
     rc, impl1, err = c.run_impl(binary, ["c18"], "\n".join(x.impl for x in cases1) + "\n")
     impl1 += ["<missing>"] * (len(cases1) - len(impl1))
@@ -509,7 +574,7 @@ def main(tier):
             codec_lines.append("D %s %s" % (k, hx(b)))
             z = dec_py(k, b)
             codec_want.append("ok %d" % z if z is not None else ("err eof" if n == 0 else "err ueof"))
-    mout_all = c.run_model("column", "\n".join(mlines + codec_lines) + "\n")
+    mout_all = run_model_bigstack("\n".join(mlines + codec_lines) + "\n")
     model, codec_got = mout_all[:len(mlines)], mout_all[len(mlines):]
     norm = [normalise(cs, o) for cs, o in zip(cases, impl)]
 
@@ -536,8 +601,9 @@ def main(tier):
                 sig = "C18:scan:source"
             if why == "panic":
                 sig = cs.sig if cs.sig.startswith("C18:scan:corrupt") else "C18:panic:" + cs.kind
+            why = why if len(why) <= 700 else why[:500] + " ...[%d chars]... " % len(why) + why[-150:]
             c.report(sig, "sqlx column: %s" % why,
-                     {"kind": "input", "case": cs.impl[:4000], "implementation": o[:2000], "model": model[i] if i < len(model) else None,
+                     {"kind": "input", "case": cs.impl[:4000], "case_length": len(cs.impl), "recipe": cs.meta.get("recipe"), "implementation": o[:2000], "model": model[i] if i < len(model) else None,
                       "how": "echo '<case>' | harness c18   (formats: see harness/c18/c18.go)"})
     for i in bad:
         if i in decided or i >= len(cases):
@@ -547,6 +613,17 @@ def main(tier):
         c.report(cs.sig, "sqlx column: implementation gives %r, the specification gives %r" % (norm[i][:200], (model[i] if i < len(model) else None)),
                  {"kind": "input", "case": cs.impl[:4000], "implementation": impl[i][:2000], "model_case": mlines[i][:4000],
                   "model": model[i] if i < len(model) else None})
+    # observations recorded, not compared: nil vs empty []byte after Scan; EncryptColumn[any] (outside the listed T's)
+    nilobs = {}
+    for cs, o in zip(cases, impl):
+        if cs.kind == "X" and cs.meta.get("corrupt") == "none" and cs.meta.get("ty") == "bytes" and cs.meta.get("val") in ("nil", ""):
+            key = "Scan(Value(%s)).Val" % ("[]byte(nil)" if cs.meta["val"] == "nil" else "[]byte{}")
+            nilobs[key] = "nil" if " val=bytes=nil " in o else "empty non-nil" if " val=bytes= " in o else o[:60]
+    c.cov["nil_vs_empty_bytes"] = dict(nilobs, note="the model identifies nil and empty []byte (bytes.Equal); Valid=true and a 28-byte stored value are checked")
+    rc, anyl, err = c.run_impl(binary, ["c18", "anyprobe"], "")
+    c.cov["out_of_scope_EncryptColumn_any"] = [
+        {k: (bytes.fromhex(v).decode("utf-8", "replace") if k in ("in", "out") else v) for k, v in (x.split("=", 1) for x in l.split()[1:] if "=" in x)}
+        for l in anyl if l.startswith("any ")]
     # (d) pairwise inequality of ciphertexts and nonces over repeated Value() of the same column
     groups = {}
     for cs, o in zip(cases1, impl1):
